@@ -4,6 +4,8 @@ import (
 	"fmt"
 	"go/token"
 	"go/types"
+	"sort"
+	"strings"
 
 	"golang.org/x/tools/go/ssa"
 )
@@ -35,6 +37,20 @@ func computeAnchors(fn *ssa.Function) map[ssa.Instruction]string {
 					name = x.Call.Method.Name()
 				} else if f := x.Call.StaticCallee(); f != nil {
 					name = f.Name()
+					if i := strings.Index(name, "["); i > 0 {
+						name = name[:i] // instantiation of a generic function: the generic's name
+					}
+				} else if u, ok := x.Call.Value.(*ssa.UnOp); ok && u.Op == token.MUL {
+					// a call through a function value held in a named local variable: the variable's name
+					if al, ok := u.X.(*ssa.Alloc); ok && al.Comment != "" {
+						name = al.Comment
+					} else if fv, ok := u.X.(*ssa.FreeVar); ok {
+						name = fv.Name() // a captured function variable
+					}
+				} else if prm, ok := x.Call.Value.(*ssa.Parameter); ok {
+					name = prm.Name() // a function-typed parameter
+				} else if fv, ok := x.Call.Value.(*ssa.FreeVar); ok {
+					name = fv.Name()
 				}
 				if name != "" {
 					base := "call(" + name
@@ -55,7 +71,15 @@ func (vc *VC) checkAnchorsBound(fr *frame) {
 	for _, cl := range fr.contract.Asserts {
 		if !have[cl.Label] {
 			st := &State{pc: vc.P.True(), cells: map[cellKey]Val{}, heap: map[string]*Term{}}
-			vc.oblige(st, "binding", "assert@"+cl.Label, "the contract anchors an assertion at "+cl.Label+" but the function has no such instruction", vc.P.False(), cl.Tags, fr.fn.Pos(), false)
+			var avail []string
+			for l := range have {
+				avail = append(avail, l)
+			}
+			sort.Strings(avail)
+			if len(avail) > 40 {
+				avail = avail[:40]
+			}
+			vc.oblige(st, "binding", "assert@"+cl.Label, "the contract anchors an assertion at "+cl.Label+" but the function has no such instruction (anchors present: "+strings.Join(avail, " ")+")", vc.P.False(), cl.Tags, fr.fn.Pos(), false)
 		}
 	}
 }
